@@ -89,6 +89,24 @@ def mat(e, env, atoms):
         return a * b if a is not None and b is not None else None
     if isinstance(e, ast.Subscript) and ast.unparse(e.slice).replace(" ", "") in ("0,0", "(0,0)"):
         return mat(e.value, env, atoms)
+    if isinstance(e, ast.Call) and ast.unparse(e.func) in ("np.eye", "np.identity", "numpy.eye", "numpy.identity") and len(e.args) == 1:
+        return MatForm.identity()
+    if isinstance(e, ast.BinOp) and isinstance(e.op, (ast.Add, ast.Sub)):
+        a, b = mat(e.left, env, atoms), mat(e.right, env, atoms)
+        if a is None or b is None:
+            return None
+        return a + b if isinstance(e.op, ast.Add) else a - b
+    if isinstance(e, ast.BinOp) and isinstance(e.op, (ast.Mult, ast.Div)):
+        # scalar multiple of a matrix form (a numeric literal on either side; division by a literal)
+        from fractions import Fraction
+        num = lambda x: Fraction(str(x.value)) if isinstance(x, ast.Constant) and isinstance(x.value, (int, float)) and not isinstance(x.value, bool) else None
+        cl, cr = num(e.left), num(e.right)
+        if isinstance(e.op, ast.Mult) and cl is not None:
+            b = mat(e.right, env, atoms)
+            return b.scale(cl) if b is not None else None
+        if cr is not None and cr != 0:
+            a = mat(e.left, env, atoms)
+            return a.scale(cr if isinstance(e.op, ast.Mult) else 1 / cr) if a is not None else None
     return None
 
 
@@ -107,7 +125,7 @@ def run(ctx: core.Ctx) -> int:
     # compare what transform does, not how it is arranged: private helpers inlined, temporaries / module constants substituted,
     # guard clauses and redefinitions normalised (fv.normast)
     from .. import normast
-    nz = normast.Normaliser(normast.class_resolver(mod, cls, module_funcs=False), consts=normast.module_constants(mod))
+    nz = normast.Normaliser(normast.class_resolver(mod, cls, module_funcs="small"), consts=normast.module_constants(mod))
     tr = nz.function(tr)
     for h in nz.inlined:
         ctx.functions.append(f"python.{CLS}.{h} (inlined into transform)")
@@ -170,6 +188,12 @@ def run(ctx: core.Ctx) -> int:
                and ast.unparse(i.value).replace(" ", "") == "self.model_.State()"), "state")
     PN = next((i.target.id for i in items if i.kind == "assign" and not i.loops and isinstance(i.target, ast.Name)
                and ast.unparse(i.value).replace(" ", "") == "self.model_.Covariance()"), "covariance")
+    # every call starts from the compiled filter's default estimate (nothing is carried over from an earlier call)
+    for nm_, want_ in ((SN, "self.model_.State()"), (PN, "self.model_.Covariance()")):
+        pre = [ast.unparse(i.value).replace(" ", "") for i in items if i.kind == "assign" and not i.loops and isinstance(i.target, ast.Name) and i.target.id == nm_]
+        ctx.oblige("SEQUENCE", where, f"`{nm_}` starts as {pre}", pre == [want_], file=F, func=q, construct=f"initial {want_}",
+                   msg=f"the estimate threaded through the rows starts as {pre}, not the fresh default `{want_}`: the result depends on something other than "
+                       f"the data and the parameters (repeating the call need not return the same values)")
     sens = next((i.stmt for i in in_row if i.kind == "for-begin" and any(isinstance(c, ast.Call) and ast.unparse(c.func).endswith(".sensor_model")
                                                                           for c in ast.walk(i.stmt))), None)
     if sens is None:
@@ -454,7 +478,7 @@ def refuse_only_rule(ctx, cls, mod):
     n = 0
     for name in ("transform", "mahalanobis", "score"):
         fn = core.need(core.find_func(cls, name), f"{CLS}.{name}")
-        fn = normast.Normaliser(normast.class_resolver(mod, cls, module_funcs=False), consts=normast.module_constants(mod)).function(fn)
+        fn = normast.Normaliser(normast.class_resolver(mod, cls, module_funcs="small"), consts=normast.module_constants(mod)).function(fn)
         q = f"{CLS}.{name}"
 
         def paths_of(stmts, prefix):
